@@ -546,7 +546,25 @@ func (h *hist) msg(c *cl, m *smsg) sendResult {
 }
 
 func (h *hist) pump(c *cl) sigdrv.Result {
+	// C09: what a stored token grants is what was written in it.  Serving an
+	// action queue (where permission changes are applied, in place, to the
+	// client's own list) never edits a token: only maketoken/edittoken do, and
+	// they are messages.  A change here means the client's list IS the token's.
+	var tokBefore map[string]string
+	if len(h.tokCanon) > 0 {
+		tokBefore = h.tokenSnapshot()
+	}
 	res := c.c.Pump()
+	if tokBefore != nil {
+		h.t.Checked("C09.token_unchanged_by_moderation")
+		after := h.tokenSnapshot()
+		for g, b := range tokBefore {
+			if after[g] != b {
+				h.t.Fail("C09", "token_unchanged_by_moderation", fmt.Sprintf("serving the action queue of client %d (permissions now %v) changed the stored tokens of group %q: %s -> %s; the next bearer is granted what was never written in the token",
+					c.h, c.c.Permissions(), g, b, after[g]))
+			}
+		}
+	}
 	h.take(c)
 	switch {
 	case res.Panic != nil:
